@@ -14,7 +14,8 @@ EXPLANATION = (
     "rollback routines); (R5) TxInfo.state only moves Active->Committed/Aborted; (R6) the RDF transaction buffer is applied "
     "in issue order (no reordering combinator between the buffer and the apply loop); (R7) the session's direct mutators "
     "create versions tagged with the context of get_transaction_context; (R1r) RDF operators touch the committed triple set "
-    "directly only when no transaction is open. insert_in_tx / remove_in_tx append to the buffer on every path (R6 always-buffers). "
+    "directly only when no transaction is open. R1c also: every path through the undo routine looks at each versioned structure; (R3b) the success arm of Session::commit applies the RDF buffer and advances the store clock on every path; (R3c) Session::rollback discards in both stores before it marks the transaction aborted. "
+    "insert_in_tx / remove_in_tx append to the buffer on every path (R6 always-buffers). "
     "It does not run transactions.")
 ASSUMPTIONS = [
     "cell classification table in rules/common.py (allocators and advisory statistics are exempt from rollback coverage)",
